@@ -8,6 +8,8 @@ d = f"/verif/seeded/{sid}"
 wt = f"/var/tmp/osv/mut-{sid}"
 subprocess.run(["git", "-C", "/repo", "worktree", "remove", "--force", wt], capture_output=True)
 subprocess.run(["git", "-C", "/repo", "worktree", "add", "--detach", wt, "HEAD"], check=True, capture_output=True)
+ev = f"/verif/evidence/{pid}.json"
+ev_saved = open(ev).read() if os.path.exists(ev) else None     # the mutated run rewrites the evidence file: put it back afterwards
 try:
     if subprocess.run(["git", "-C", wt, "apply", os.path.join(d, "patch.diff")]).returncode != 0:
         subprocess.run(["git", "-C", wt, "apply", "--3way", os.path.join(d, "patch.diff")], check=True)
@@ -21,6 +23,8 @@ try:
     if p.returncode not in (0, 1):
         res["stderr"] = p.stderr[-1500:]
 finally:
+    if ev_saved is not None:
+        open(ev, "w").write(ev_saved)
     subprocess.run(["git", "-C", "/repo", "worktree", "remove", "--force", wt], capture_output=True)
     shutil.rmtree(wt, ignore_errors=True)
 mp = os.path.join(d, "meta.json")
